@@ -40,15 +40,22 @@ func openHist(filename string) (list []Item, err error) {
 		return list, err
 	}
 
-	scanner := bufio.NewScanner(file)
-	for scanner.Scan() {
-		var item Item
-		err := json.Unmarshal(scanner.Bytes(), &item)
-		if err != nil || len(item.Block) == 0 {
-			continue
+	// lines can be of any length (a command can be hundreds of KiB), which
+	// bufio.Scanner's default 64 KiB token limit silently stopped at
+	reader := bufio.NewReader(file)
+	for {
+		line, readErr := reader.ReadBytes('\n')
+		if len(line) > 0 {
+			var item Item
+			err := json.Unmarshal(line, &item)
+			if err == nil && len(item.Block) != 0 {
+				item.Index = len(list)
+				list = append(list, item)
+			}
 		}
-		item.Index = len(list)
-		list = append(list, item)
+		if readErr != nil {
+			break
+		}
 	}
 
 	file.Close()
